@@ -50,6 +50,11 @@ class Engine:
         then reports fewer runs than planned; never a pass/fail decision)."""
         return 240.0 if tier == "quick" else 7200.0
 
+    def selftest_indices(self, n: int) -> list[int]:
+        """Run indices for the light determinism self-test (engines whose first runs are long
+        enumerated sweeps return a few of those plus ordinary runs)."""
+        return list(range(n))
+
     def extra_meta(self) -> dict:
         """Static facts about the engine for the evidence file (e.g. catalogue coverage)."""
         return {}
